@@ -192,8 +192,9 @@ pub fn cfg_json(c: &SPDCConfig) -> Value {
 }
 
 pub fn units_json() -> Value {
+  let cr: Vec<Value> = crystals().iter().map(|c| json!({"id": c.id, "lo": fx(c.lo), "hi": fx(c.hi)})).collect();
   json!({"milliw": fx(MILLIW.value_unsafe), "volt": fx(V.value_unsafe), "deg": fx(DEG.value_unsafe),
-         "min_positive": fx(f64::MIN_POSITIVE)})
+         "min_positive": fx(f64::MIN_POSITIVE), "crystals": cr})
 }
 
 // ------------------------------------------------------------------------------------------------ outcome of a fallible call
